@@ -259,6 +259,9 @@ class SModel(KModel):
         if isinstance(a0, Obj):
             k = a0.kind
             if k == 'data':
+                if last in ('first', 'last'):
+                    # some element of the (non-empty) data: only ever shown in an error message
+                    return SOME(Ref(ValPlace(Opaque('%s element of the data' % last))))
                 if last in ('axis_iter', 'outer_iter') and not a0.d['idx']:
                     if last == 'axis_iter' and not is_axis0(args[1]):
                         raise Unsupported("axis_iter over an axis other than Axis(0) of the data", e)
@@ -321,6 +324,11 @@ class SModel(KModel):
 
     def arr1_call(self, last, a, args, e):
         t = a.d['t']
+        if last in ('slice_axis_mut', 'slice_axis'):
+            if not is_axis0(args[1]):
+                raise Unsupported("slice_axis on another axis of a 1-D array", e)
+            lo, hi = self.slice_bounds(deref_all(args[2]), a.d['hi'] - a.d['lo'], e)
+            return Obj('arr1', t=t, lo=a.d['lo'] + lo, hi=a.d['lo'] + hi)
         if last in ('slice_mut', 'slice'):
             si = deref_all(args[1])
             if not (isinstance(si, Obj) and si.kind == 'sliceinfo' and len(si.d['elems']) == 1):
